@@ -308,6 +308,83 @@ def run_reopen(ctx, cases):
     return bad, skipped, impl
 
 
+# ---------------------------------------------------------------- the transmit side under congestion
+def gen_write_cases(ctx, n):
+    """(role, script, ncmds, request hex): a frame written into a transport that takes it in pieces and is full for a
+    while (`b` steps), with decode-level changes arriving while the write is parked"""
+    r = ctx.rng
+    reqs = {'server-rtu': lambda: fc.rtu_frame(1, bytes([3, 0, r.randrange(50), 0, r.choice([1, 3, 60, 125])])).hex(),
+            'server-tcp': lambda: fc.mbap(r.randrange(65536), 1, bytes([3, 0, r.randrange(50), 0, r.choice([1, 3, 60, 125])])).hex(),
+            'client-rtu': lambda: '', 'client-tcp': lambda: ''}
+    cases = [('server-rtu', 'a4,b,a2,b,a300', 2, fc.rtu_frame(1, bytes([3, 0, 0, 0, 3])).hex()),
+             ('server-tcp', 'a4,b,a300', 3, fc.mbap(7, 1, bytes([3, 0, 0, 0, 3])).hex()),
+             ('server-rtu', 'b,a300', 1, fc.rtu_frame(1, bytes([3, 0, 0, 0, 3])).hex()),
+             ('client-rtu', 'a3,b,a300', 2, ''), ('client-tcp', 'a1,b,a1,b,a300', 1, '')]
+    while len(cases) < n:
+        role = r.choice(['server-rtu', 'server-rtu', 'server-tcp', 'client-rtu', 'client-tcp'])
+        steps = []
+        for _ in range(r.choice([1, 2, 2, 3])):
+            steps.append('a%d' % r.choice([1, 2, 3, 5, 8, 100]))
+            if r.random() < 0.8:
+                steps.append('b')
+        steps.append('a300')
+        cases.append((role, ','.join(steps), r.choice([0, 1, 1, 2, 5]), reqs[role]()))
+    return cases
+
+
+def run_write(ctx, cases):
+    line = lambda c, script, n: ' '.join([c[0], script, str(n)] + ([c[3]] if c[3] else []))
+    out = ctx.harness('reply_write', [line(c, c[1], c[2]) for c in cases] + [line(c, '-', 0) for c in cases], shards=8)
+    scripted, ref = out[:len(cases)], out[len(cases):]
+    evs = lambda c: '[' + ';'.join('Take %s' % t[1:] if t[0] == 'a' else ';'.join(['Cmd CChangeDecoding'] * c[2]) for t in c[1].split(',') if t[0] == 'a' or c[2] > 0) + ']'
+    model = ctx.coq_eval(fc.REQUIRES + ['Gen.WritePath', 'Model.WritePath'], 'eval_write_reply', ['(%s, %s, %s)' % (vlib.coq_bool(c[0].startswith('client')), vlib.coq_N_list(bytes.fromhex(rf.split(' ')[0] if rf[0] != '-' else '')), evs(c)) for c, rf in zip(cases, ref)],
+                         case_type='bool * list N * list wevent', per_shard=100)
+    bad, rtu_refs, rtu_src = 0, [], []
+    for c, s_, rf, m in zip(cases, scripted, ref, model):
+        emitted, once = s_.split(' ')[0], rf.split(' ')[0]
+        mout, _, spec = m.partition('|')
+        if c[0].endswith('rtu') and once != '-':
+            rtu_refs.append(once)
+            rtu_src.append(line(c, '-', 0))
+        if emitted != spec or once != spec or 'parked=0' not in rf:
+            bad += 1
+            if bad == 1:
+                ctx.violation(f'{c[0]}.emitted-bytes-are-not-one-serialisation-of-the-frame',
+                              f'`reply_write: {line(c, c[1], c[2])}`: the transport received {emitted[:120]} although the frame is {spec[:80]} '
+                              '(a congested transmit path with commands arriving while the write is parked: fragment re-sent / bytes lost?)',
+                              {'cases': [{'write': list(c)}], 'impl': s_, 'spec': spec, 'model': mout, 'harness_line': 'reply_write: ' + line(c, c[1], c[2])})
+        elif mout.split(':')[0] != emitted:
+            bad += 1
+            ctx.violation(f'{c[0]}.write-model-differs-from-impl', f'{line(c, c[1], c[2])}: impl {emitted[:80]} model {mout[:80]}',
+                          {'cases': [{'write': list(c)}], 'impl': s_, 'model': mout, 'spec': spec}, no_failing_input=True)
+    bad += check_emitted(ctx, 'write-path', rtu_refs, rtu_src) if rtu_refs else 0
+    return bad, scripted
+
+
+def run_pty(ctx, rounds):
+    """the REAL serial arm of PhysLayer::write behind a pseudo terminal whose queue fills up"""
+    out = ctx.harness('pty_serial', [' '.join(str(x) for x in rounds)], timeout=120)[0]
+    if out.startswith('NOPTY') or out in ('PANIC', 'SPIN'):
+        return None, out
+    bad = 0
+    frames, srcs = [], []
+    for rd in out.split(' / '):
+        f = dict(kv.split('=', 1) for kv in rd.split(' '))
+        regs, sent, wire, same = int(f['regs']), int(f['sent']), int(f['wire']), int(f['same'])
+        spec = fc.rtu_frame(0x11, bytes([3, 2 * regs]) + b''.join(bytes([i >> 8, i & 255]) for i in range(regs))).hex().upper()
+        frames.append(f['first'])
+        srcs.append('pty_serial: %d registers' % regs)
+        if f['first'] != spec or same != sent or wire != sent * (len(spec) // 2) or sent < 2:
+            bad += 1
+            if bad == 1:
+                ctx.violation('serial-port.emitted-bytes-are-not-complete-frames',
+                              f'real serial arm of PhysLayer::write on a pseudo terminal, {sent} requests of {regs} registers answered while the master did not '
+                              f'drain: {wire} bytes on the wire, {same} leading complete replies, then {f["bad"][:48]}.. (expected {sent} x {len(spec) // 2} bytes, every reply = {spec[:16]}..CRC)',
+                              {'cases': [{'pty': list(rounds)}], 'impl': rd[:300], 'spec': f'{sent} x {spec}', 'harness_line': 'pty_serial: ' + ' '.join(str(x) for x in rounds)})
+    bad += check_emitted(ctx, 'serial-port', frames, srcs)
+    return bad, out
+
+
 def check_emitted(ctx, what, frames, sources, replay_cases=None):
     """every emitted frame = rtu_format of its own destination and PDU = the Spec's rtu_frame_of, and <= 256 bytes"""
     frames = [bytes.fromhex(f) for f in frames]
@@ -335,14 +412,14 @@ def check_emitted(ctx, what, frames, sources, replay_cases=None):
 
 
 def run(ctx):
-    ctx.translate(['Consts.v', 'RtuLengths.v', 'ParserShape.v'])
+    ctx.translate(['Consts.v', 'RtuLengths.v', 'ParserShape.v', 'WritePath.v'])
     models_ok = ctx.build_models(['Base.Show', 'Base.Frame', 'Model.Reader', 'Spec.Framing', 'Model.FramingEval'])
     ctx.prove()
     if ctx.tier == 'thorough':
         ctx.coqchk()
     if not ctx.build_harness() or not models_ok:
         return
-    emit_lines = server_cases = client_cases = reopen_cases = None
+    emit_lines = server_cases = client_cases = reopen_cases = write_cases = pty_rounds = None
     if ctx.replay and 'cases' in ctx.replay:
         cs = ctx.replay['cases']
         cases = [fc.case_from_json(c) for c in cs if not isinstance(c, dict)]
@@ -351,6 +428,8 @@ def run(ctx):
         server_cases = [(c['fin'], [bytes.fromhex(x) for x in c['chunks']]) for c in cs if isinstance(c, dict) and 'server' in c]
         client_cases = [[([bytes.fromhex(x) for x in ch], fin) for ch, fin in c['client']] for c in cs if isinstance(c, dict) and 'client' in c]
         reopen_cases = [[(fin, [bytes.fromhex(x) for x in ch]) for fin, ch in c['reopen']] for c in cs if isinstance(c, dict) and 'reopen' in c]
+        write_cases = [tuple(c['write']) for c in cs if isinstance(c, dict) and 'write' in c]
+        pty_rounds = [c['pty'] for c in cs if isinstance(c, dict) and 'pty' in c]
     else:
         cases, tags = gen_reader_cases(ctx, 800 if ctx.quick() else 6000)
     decode = (ctx.replay or {}).get('decode', 'min')
@@ -431,6 +510,23 @@ def run(ctx):
     if reopen_cases:
         ctx.oblige('correspondence:rtu-server-across-port-reopens', bad_ro == 0, f'{bad_ro} mismatches over {len(reopen_cases)} lifecycles ({skipped_ro} not judged)')
 
+    # ---- the transmit side: a congested transport + commands while the write is parked (scripted), and the real serial arm (pty)
+    if write_cases is None:
+        write_cases = gen_write_cases(ctx, 200 if ctx.quick() else 2000)
+    bad_w, write_impl = run_write(ctx, write_cases) if write_cases else (0, [])
+    if write_cases:
+        ctx.oblige('correspondence:emitted-bytes-under-congestion-and-commands', bad_w == 0, f'{bad_w} mismatches over {len(write_cases)} scripted writes')
+    if pty_rounds is None:
+        pty_rounds = [[125, 124, 101]]
+    pty_out = ''
+    for rounds in pty_rounds:
+        bad_p, pty_out = run_pty(ctx, rounds)
+        if bad_p is None:
+            ctx.notes.append('pty_serial not run: ' + pty_out)
+            ctx.oblige('correspondence:real-serial-arm-on-a-pty', True, 'NOT RUN (no pseudo terminal available): ' + pty_out[:80])
+        else:
+            ctx.oblige('correspondence:real-serial-arm-on-a-pty', bad_p == 0, pty_out[:60] + '..')
+
     # ---- measured input classes
     classes = {}
     def bump(k, n=1):
@@ -452,6 +548,12 @@ def run(ctx):
             bump('buffer:full_with_1..7_consumed')        # end == capacity with begin in 1..7: compaction frees exactly that much
     for e, l in zip(emitted, emit_lines):
         bump('emit:' + l.split()[1] + (':refused' if e == 'ERR' else ''))
+    for c, i in zip(write_cases, write_impl):
+        bump('write:' + c[0])
+        if 'parked=0' not in i and c[2] > 0:
+            bump('write:commands_while_parked')
+    for rd in (pty_out.split(' / ') if 'regs=' in pty_out else []):
+        bump('pty:congested_round')
     for c, i in zip(reopen_cases, reopen_impl):
         bump('reopen:port_sessions=%d' % min(len(c), 4))
         if 'BadFrame' in i and 'wsr' in i.split(' ends=')[0].split('BadFrame')[-1]:
@@ -468,12 +570,12 @@ def run(ctx):
     if not ctx.replay:
         need = (['corrupt:%s->rejected' % c for c in CLASSES] + ['stream:fc:%d' % f for f in fc.FCS] +
                 ['stream:exception_reply', 'stream:length_preserving', 'stream:length_changing', 'ending:Crc', 'ending:UnknownFunctionCode',
-                 'ending:FrameLengthTooBig', 'role:rtureq', 'role:rtursp', 'schedule:byte_per_byte', 'mode:resume', 'mode:cancel', 'cancel:abandoned_mid_frame', 'stream:stale_state_bait', 'buffer:full_with_1..7_consumed', 'client_result:Ok', 'client_result:BadFrame', 'client_result:Exception', 'reopen:framing_error_then_reopen', 'reopen:handler_called'])
+                 'ending:FrameLengthTooBig', 'role:rtureq', 'role:rtursp', 'schedule:byte_per_byte', 'mode:resume', 'mode:cancel', 'cancel:abandoned_mid_frame', 'stream:stale_state_bait', 'buffer:full_with_1..7_consumed', 'client_result:Ok', 'client_result:BadFrame', 'client_result:Exception', 'reopen:framing_error_then_reopen', 'reopen:handler_called', 'write:commands_while_parked'])
         missing = [k for k in need if classes.get(k, 0) < 3]
         ctx.oblige('generator-reaches-expected-classes', not missing, 'missing: ' + ','.join(missing))
     nontrivial = set(fc.to_line(c) for c, (t, _) in zip(cases, tags) if any(x.startswith('corrupt:') for x in t))
     ctx.coverage.update({
-        'evaluations': len(cases) + len(emit_lines) + len(server_cases) + len(client_cases) + len(reopen_cases),
+        'evaluations': len(cases) + len(emit_lines) + len(server_cases) + len(client_cases) + len(reopen_cases) + len(write_cases) + len(pty_rounds),
         'distinct_nontrivial': len(nontrivial) + len(set(e for e, _ in sent)),
         'rule': 'reader cases (role, stop/resume, ending, chunk list) from a seeded PRNG: directed list, then streams of 1-5 RTU frames of the eight functions / exception replies, '
                 'one of them corrupted (8 classes; every role x function x class combination first), x chunk schedules; non-trivial = stream contains a corrupted frame; '
